@@ -757,3 +757,78 @@ Qed.
 End L.
 
 Print Assumptions parse_total.
+
+(* ---- the wrappers of path.go (C04: "returns a path xor an error") ---- *)
+Section API.
+Variable L : GoLib.
+
+Theorem must_parse_panics_iff s :
+  (exists w, must_parse L s = Panic w) <-> (exists k, parse L s = PErr k).
+Proof.
+  unfold must_parse. destruct (parse L s) as [p|k]; split; intros [x H]; try discriminate; eauto.
+Qed.
+
+Theorem must_parse_ret_iff s p : must_parse L s = Ret p <-> parse L s = POk p.
+Proof.
+  unfold must_parse. destruct (parse L s) as [q|k]; split; intros H; inversion H; subst; auto; discriminate.
+Qed.
+
+Theorem must_parse_never_out_of_fuel s : must_parse L s <> OutOfFuel.
+Proof. unfold must_parse. destruct (parse L s); discriminate. Qed.
+
+(* path.Parse: ErrPath wrapping the parser's error, and only that *)
+Theorem parse_api_err s e :
+  parse_api L s = inr e <-> exists k, parse L s = PErr k /\ e = ApiPathParse k.
+Proof.
+  unfold parse_api. destruct (parse L s) as [p|k]; split.
+  - discriminate.
+  - intros [k [H _]]. discriminate.
+  - intros H. inversion H. eauto.
+  - intros [k' [H ->]]. inversion H. reflexivity.
+Qed.
+
+Theorem parse_api_ok s p : parse_api L s = inl p <-> parse L s = POk p.
+Proof.
+  unfold parse_api. destruct (parse L s) as [q|k]; split; intros H; inversion H; subst; auto; discriminate.
+Qed.
+
+(* Scan: nil and the empty string / empty []byte leave the receiver alone;
+   anything else is parsed, a failure is ErrScan wrapping the parser error;
+   other source types are ErrScan without a parser error. *)
+Theorem scan_nil cur : scan L cur SrcNil = inl cur.
+Proof. reflexivity. Qed.
+Theorem scan_empty cur : scan L cur (SrcString "") = inl cur /\ scan L cur (SrcBytes "") = inl cur.
+Proof. split; reflexivity. Qed.
+Theorem scan_bytes_as_string cur s : scan L cur (SrcBytes s) = scan L cur (SrcString s).
+Proof. reflexivity. Qed.
+Theorem scan_nonempty cur s :
+  s <> EmptyString ->
+  scan L cur (SrcString s) =
+    match parse L s with POk p => inl (Some p) | PErr k => inr (ApiScanParse k) end.
+Proof. intros H. destruct s; [congruence|reflexivity]. Qed.
+Theorem scan_err_class cur src e :
+  scan L cur src = inr e -> is_err_scan e = true /\ is_err_path e = false /\
+    (forall k, wraps_parse e = Some k -> exists s, (src = SrcString s \/ src = SrcBytes s) /\ parse L s = PErr k).
+Proof.
+  destruct src as [|s|s|]; cbn; intros H; try discriminate.
+  - destruct s; [discriminate|]. destruct (parse L (String a s)) eqn:E; inversion H; subst.
+    repeat split; auto. intros k0 K. inversion K; subst. eauto.
+  - destruct s; [discriminate|]. destruct (parse L (String a s)) eqn:E; inversion H; subst.
+    repeat split; auto. intros k0 K. inversion K; subst. eauto.
+  - inversion H; subst. repeat split; auto. intros k K. discriminate.
+Qed.
+
+Theorem unmarshal_mirror data :
+  unmarshal_text L data = unmarshal_binary L data /\
+  unmarshal_binary L data =
+    match parse L data with POk p => inl p | PErr k => inr (ApiScanParse k) end.
+Proof. split; reflexivity. Qed.
+
+Theorem marshal_is_string p :
+  marshal_text L p = print_path L p /\ marshal_binary L p = print_path L p /\ value L p = print_path L p.
+Proof. repeat split; reflexivity. Qed.
+
+Theorem pg_index_operator_spec p :
+  pg_index_operator p = (if p_pred p then "@@" else "@?")%string.
+Proof. reflexivity. Qed.
+End API.
